@@ -587,6 +587,16 @@ func main() {
 		}
 	}
 	l = append(l, scenario(scen{name: "2dc/maxts-beyond-rest-of-window", zones: two, alloc: map[string]int{"dc1": 1, "dc2": 2}, pre: 2, tiers: "quick", build: midJump, offsets: map[int]time.Duration{1: 1500 * time.Millisecond}}))
+	// a local allocator whose logical part is close to the limit (after the suffix shift) when a
+	// global request collects it: the collected maximum plus the request count crosses the limit
+	nearLimit := func(w *world) ([]string, []func()) {
+		return []string{"local1", "global", "local2"}, []func(){
+			func() { w.request(1, "dc1", 65500); w.request(1, "dc1", 1) },
+			func() { w.request(1, G, 100); w.request(1, G, 1) },
+			func() { w.request(2, "dc2", 1) },
+		}
+	}
+	l = append(l, scenario(scen{name: "2dc/local-logical-near-limit", zones: two, alloc: map[string]int{"dc1": 1, "dc2": 2}, pre: 2, tiers: "quick", build: nearLimit}))
 	// two members want the same allocator leadership: dc2's allocator is led by server 2 and
 	// server 1 campaigns for it as well (its view of the leadership is late)
 	contend := func(w *world) ([]string, []func()) {
